@@ -15,6 +15,8 @@ mod parse_cmd;
 #[cfg(feature = "query")]
 mod query_cmd;
 mod sep_cmd;
+#[cfg(feature = "hooks")]
+mod trace_hooks;
 mod util;
 #[cfg(feature = "web")]
 mod web_cmd;
